@@ -39,7 +39,7 @@ DIFF = [  # (criteria, brute-force key, how to read the LP result)
 
 
 def budget(tier):
-    return 4000 if tier == 'quick' else 40000
+    return 4000 if tier == 'quick' else 100000
 
 
 @st.composite
